@@ -124,10 +124,11 @@ def history_queries(backend: str) -> List[str]:
 
 def deep_chain(coll: str, n: int, ds: str = "{ds}") -> str:
     "a chain of n Where steps in front of a Count: the depth of the query is n"
-    q = f"Select({ds}, lambda e: e.{coll}('A'))"
+    # (method style: a nested function-style text of this depth is refused by Python's own parser)
+    q = f"{ds}.Select(lambda e: e.{coll}('A'))"
     for k in range(n):
-        q = f"Where({q}, lambda c{k}: c{k}.Count() >= 0)" if k % 2 == 0 else f"Select({q}, lambda c{k}: c{k})"
-    return f"Select({q}, lambda cz: cz.Count())"
+        q += f".Where(lambda c{k}: c{k}.Count() >= 0)" if k % 2 == 0 else f".Select(lambda c{k}: c{k})"
+    return q + ".Select(lambda cz: cz.Count())"
 
 
 UNSUPPORTED = ["Select({ds}, lambda e: e.%s('A').Select(lambda j: j.pt() // 2))", "Select({ds}, lambda e: e.%s('A').Select(lambda j: 1 < j.pt() < 2))",
